@@ -32,7 +32,74 @@ func checkC14(r *core.Run) {
 	c14Determinism(r, p)
 	c14Wipes(r, p)
 	c14Consts(r, p)
+	c14FixedWidth(r, p)
 	c14Path(r, p)
+}
+
+// c14FixedWidth: a private key is 32 bytes whatever its numeric value. big.Int.Bytes() drops leading
+// zero bytes, so the child key (parent + tweak mod n) must be written right-aligned into a 32-byte
+// buffer; returning Bytes() itself, or padding by a fixed number of bytes, shifts keys that begin with
+// zero bytes (about one in 256, one in 65536 for two) - the wallet then lists an address the extended
+// public key does not derive.
+func c14FixedWidth(r *core.Run, p *core.Program) {
+	const rule = "R-C14-consts"
+	fn := p.Func("lib/btc.DeriveNextPrivate")
+	if fn == nil {
+		r.Fail(rule, "child-key/fixed-width", "-", "DeriveNextPrivate not found")
+		return
+	}
+	var probs []string
+	nums := an.CallsTo(fn, false, "(*math/big.Int).Bytes")
+	if len(nums) != 1 {
+		probs = append(probs, fmt.Sprintf("%d big-number serialisations, one expected", len(nums)))
+	} else {
+		num := nums[0].(ssa.Value)
+		ne := an.Expr(num)
+		// the number is (p + s) mod n
+		if !strings.Contains(ne, "(*math/big.Int).Mod(") || !strings.Contains(ne, "(*math/big.Int).Add(") || !strings.Contains(ne, "lib/secp256k1.TheCurve.Order.Int") {
+			probs = append(probs, "the child key is not (parent + tweak) mod the group order")
+		}
+		// every return value is a 32-byte make filled right-aligned
+		for _, b := range fn.Blocks {
+			ret, ok := b.Instrs[len(b.Instrs)-1].(*ssa.Return)
+			if !ok {
+				continue
+			}
+			for _, leaf := range an.PhiLeaves(ret.Results[0]) {
+				root := leaf
+				if sl, ok := root.(*ssa.Slice); ok {
+					root = sl.X
+				}
+				okBuf := false
+				switch x := root.(type) {
+				case *ssa.MakeSlice:
+					okBuf = an.Expr(x.Len) == "32"
+				case *ssa.Alloc:
+					okBuf = strings.HasPrefix(an.TypeName(an.Deref(x.Type())), "[32]")
+				}
+				if !okBuf {
+					probs = append(probs, "the returned key is "+an.Expr(leaf)+", not a 32-byte buffer")
+					continue
+				}
+				filled := false
+				for _, c := range an.CallsTo(fn, false, "builtin.copy") {
+					a := c.Common().Args
+					if a[1] != num {
+						continue
+					}
+					d := an.Expr(a[0])
+					if strings.HasSuffix(d, "[(32 - builtin.len("+ne+")):]") && strings.HasPrefix(d, strings.TrimSuffix(an.Expr(leaf), "[:32]")) {
+						filled = true
+					}
+				}
+				if !filled {
+					probs = append(probs, "the number is not copied to offset 32-len (right-aligned) of the returned buffer")
+				}
+			}
+		}
+	}
+	sort.Strings(probs)
+	r.Check(len(probs) == 0, rule, "child-key/fixed-width", p.Pos(fn.Pos()), "(parent + tweak) mod n, right-aligned in 32 bytes", strings.Join(probs, "; "))
 }
 
 // c14Wipes: sys.ClearBuffer overwrites its argument with random bytes. The determinism rule exempts it
